@@ -10,7 +10,7 @@
     Graphs: node ids pairwise distinct ([NoDup (node_ids g)], guaranteed by networkx); adjacency is symmetric by
     construction ([LGraph.adj]). *)
 From Coq Require Import List NArith ZArith Bool Arith Permutation Sorted.
-From SK Require Import lib.LGraph model.C12_Model proof.C12_Search proof.C12_Proof proof.C12_Prune proof.C12_Enum proof.C12_Sorted proof.C12_Component.
+From SK Require Import lib.LGraph model.C12_Model proof.C12_Search proof.C12_Proof proof.C12_Prune proof.C12_Enum proof.C12_Sorted proof.C12_Component proof.C12_Mol.
 Import ListNotations.
 
 (** ** 0. the specification: a common induced sub-graph mapping, written out.
@@ -325,3 +325,29 @@ Theorem C12_prune_auto_host_sets :
   (forall m, Permutation (host_set m) (map snd m)).
 Proof. exact host_sets_spec. Qed.
 Print Assumptions C12_prune_auto_host_sets.
+
+(** ** 14. molecule-level mode, find_common_subgraph(mcs_mol=True) (model [find_mcs_mol_pairs]: components of both graphs in
+    node order, stable sort by size, every component of G1 greedily paired with the first not yet used component of G2 of
+    the same size that passes the isomorphism test).  WHICH isomorphism maps a component onto its partner is VF2's choice
+    (not modelled; judged by the oracle).  Proved: the pairs join components of the two (pruned) graphs of equal size that
+    pass the test; different pairs have disjoint first and disjoint second components; and for EVERY choice of valid
+    mappings inside the matched pairs the combined mapping is a common induced mapping of the two graphs. *)
+Theorem C12_mcs_mol_valid :
+  forall (defs : list N) (prune : bool) (wc : N) (g1 g2 : graph),
+  NoDup (node_ids g1) -> NoDup (node_ids g2) ->
+  (forall a b x, In (a, b, x) (gedges g1) -> In a (node_ids g1) /\ In b (node_ids g1)) ->
+  (forall a b x, In (a, b, x) (gedges g2) -> In a (node_ids g2) /\ In b (node_ids g2)) ->
+  let g1u := prune_graph prune wc g1 in
+  let g2u := prune_graph prune wc g2 in
+  let ps := fst (find_mcs_mol_pairs defs prune wc g1 g2) in
+  (forall c1 c2, In (c1, c2) ps ->
+     In c1 (components g1u) /\ In c2 (components g2u) /\ length c2 = length c1 /\
+     comp_iso (node_match defs) edge_match g1u g2u c1 c2 = true) /\
+  (forall i j, i < j -> j < length ps -> forall x,
+     (In x (nth i (map fst ps) []) -> ~ In x (nth j (map fst ps) [])) /\
+     (In x (nth i (map snd ps) []) -> ~ In x (nth j (map snd ps) []))) /\
+  (forall ms, Forall2 (fun p m => common_induced (node_match defs) edge_match
+                                    (induced_sub g1u (fst p)) (induced_sub g2u (snd p)) m) ps ms ->
+              common_induced (node_match defs) edge_match g1u g2u (concat ms)).
+Proof. exact mcs_mol_valid. Qed.
+Print Assumptions C12_mcs_mol_valid.
